@@ -18,19 +18,24 @@ LEVEL = "model_checking"
 FUNCTIONS = ["strax.context.Context.register", "Context.set_config", "Context.new_context", "Context._context_hash",
              "Context._plugins_are_cached", "Context._plugins_to_cache", "Context._get_plugins", "Context.__get_plugin",
              "Context.__add_lineage_to_plugin", "Context._set_plugin_config", "Context.key_for", "Context.is_stored",
-             "Context.get_array", "Context.make", "strax.config.Option.validate/get_default", "strax.utils.hashablize",
+             "Context.get_array", "Context.make", "strax.config.Option.validate/get_default", "strax.utils.hashablize", "strax.utils.deterministic_hash",
+             "strax.utils.NumpyJSONEncoder",
              "strax.storage.common.DataKey", "StorageFrontend.find/_matches/_filter_lineage"]
 BOUNDS = {
     "quick": "graph src(option a tracked, option u untracked) -> m1(option b tracked, shares a) -> t1; histories of <=3 "
              "operations from {set_config tracked, set_config untracked, register same-named class with another "
              "default / version, new_context, make, get_array, get_array from a second context on the same store}; "
-             "option values, defaults and versions are unconstrained symbolic integers; fuzzy matching on a type / option",
+             "option values, defaults and versions are unconstrained symbolic integers; fuzzy matching on a type / option; "
+             "real deterministic_hash on 53 typed option values (all ordered pairs x 3 wrappings) and across fresh "
+             "interpreters with PYTHONHASHSEED 0..3",
     "thorough": "histories of <=4 operations, child-option template",
 }
 ASSUMPTIONS = ["sha1 is collision-free on lineages: deterministic_hash is replaced by an injective structural token (the "
                "real hashablize still runs)", "option values / defaults / versions are integers (symbolic); plugin "
                "versions are compared as opaque values", "use_per_run_defaults=False (plugin cache active)"]
-OUTSIDE = ["PYTHONHASHSEED / cross-process effects on set-valued options", "DataDirectory string matching of "
+OUTSIDE = ["option values outside the 53-value typed universe of the hashfn / hashseed obligations (json and sha1 are C "
+           "code: the real hash function is decided on concrete values, the solver picks pair / wrapping / seeds)",
+           "DataDirectory string matching of "
            "run-type-hash directory names (exercised with concrete lineages in C03/C04)", "default_by_run options"]
 STUBS = ["strax.deterministic_hash -> injective token", "token-keyed in-memory frontend", "np/int/min/max shims"]
 RUN = "0"
@@ -142,10 +147,15 @@ def mk_src(da, du, ver, obj=True):
     return Src
 
 
+_BNAME = ["b"]  # name of m1's tracked option; the "m1" variant names the option like the data type it configures
+
+
 def mk_m1(db, ver, vconst, obj=True):
     import strax
 
-    @strax.takes_config(strax.Option("b", default=db, track=True))
+    bname = _BNAME[0]
+
+    @strax.takes_config(strax.Option(bname, default=db, track=True))
     class M1(strax.Plugin):
         provides = ("m1",); depends_on = ("src",); data_kind = "km1"; dtype = ctx.dt(D, obj)
         __version__ = ver
@@ -155,7 +165,7 @@ def mk_m1(db, ver, vconst, obj=True):
             for q in range(len(ksrc)):
                 r["time"][q], r["endtime"][q], r["id"][q] = ksrc["time"][q], ksrc["endtime"][q], ksrc["id"][q]
                 # the class's behaviour is identified by its version (vconst is a function of the version)
-                r["val"][q] = ksrc["val"][q] + 2 * self.config["b"] + 5 * vconst
+                r["val"][q] = ksrc["val"][q] + 2 * self.config[bname] + 5 * vconst
             return r
 
     return M1
@@ -188,10 +198,12 @@ def _vals(st, d):
     return [a["val"][q] for q in range(len(a))]
 
 
-def sym_history(ops, obj=True):
+def sym_history(ops, obj=True, bname="b"):
     """Apply the history `ops` (operation kinds; their arguments are fresh symbols) to a context sharing one store,
     then compare with a brand-new context."""
     import strax
+
+    _BNAME[0] = bname
 
     da = fresh_int("da"); du = fresh_int("du"); db = fresh_int("db")
     vs = fresh_int("v_src"); vm = fresh_int("v_m1")
@@ -209,7 +221,7 @@ def sym_history(ops, obj=True):
         if op == "set_a":
             v = fresh_int(f"x{n}"); st.set_config(dict(a=v)); state["cfg"]["a"] = v
         elif op == "set_b":
-            v = fresh_int(f"x{n}"); st.set_config(dict(b=v)); state["cfg"]["b"] = v
+            v = fresh_int(f"x{n}"); st.set_config({bname: v}); state["cfg"][bname] = v
         elif op == "set_u":
             v = fresh_int(f"x{n}"); st.set_config(dict(u=v)); state["cfg"]["u"] = v
         elif op == "reg_src_default":
@@ -235,7 +247,7 @@ def sym_history(ops, obj=True):
         after = keys(st)
         # ---- which keys must change: effective tracked configuration / version of the type or an ancestor
         def eff(s):
-            a = s["cfg"].get("a", s["da"]); b = s["cfg"].get("b", s["db"])
+            a = s["cfg"].get("a", s["da"]); b = s["cfg"].get(bname, s["db"])
             return dict(src=(a, s["vs"]), m1=(a, s["vs"], b, s["vm"]), t1=(a, s["vs"], b, s["vm"]))
         e0, e1 = eff(old), eff(state)
         for d in TYPES:
@@ -263,6 +275,7 @@ def nat_history(params, model):
     import strax
 
     ops = params["ops"]
+    bname = _BNAME[0] = params.get("bname", "b")
     m = lambda k: int(model.get(k, 0))
     state = dict(da=m("da"), du=m("du"), db=m("db"), vs=m("v_src"), vm=m("v_m1"), cfg={})
     MemFrontend, _, _ = ctx.make_storage_classes()
@@ -274,7 +287,7 @@ def nat_history(params, model):
         bad = []
 
         def eff(s):
-            a = s["cfg"].get("a", s["da"]); b = s["cfg"].get("b", s["db"])
+            a = s["cfg"].get("a", s["da"]); b = s["cfg"].get(bname, s["db"])
             return dict(src=(a, s["vs"]), m1=(a, s["vs"], b, s["vm"]), t1=(a, s["vs"], b, s["vm"]))
 
         for n, op in enumerate(ops):
@@ -284,7 +297,7 @@ def nat_history(params, model):
             if op == "set_a":
                 st.set_config(dict(a=v)); state["cfg"]["a"] = v
             elif op == "set_b":
-                st.set_config(dict(b=v)); state["cfg"]["b"] = v
+                st.set_config({bname: v}); state["cfg"][bname] = v
             elif op == "set_u":
                 st.set_config(dict(u=v)); state["cfg"]["u"] = v
             elif op == "reg_src_default":
@@ -319,18 +332,19 @@ def nat_history(params, model):
     return {"ok": not bad, "detail": "; ".join(bad) or "agrees with a fresh context", "label": "history:"}
 
 
-def sym_fuzzy(kind):
+def sym_fuzzy(kind, obj=True):
     """Fuzzy matching: stored data accepted iff lineages are equal after deleting the fuzzy types / options; nothing is
     saved under fuzzy matching."""
     import strax
 
+    _BNAME[0] = "b"
     da = fresh_int("da"); db = fresh_int("db"); vm = fresh_int("v_m1")
     da2 = fresh_int("da2"); db2 = fresh_int("db2"); vm2 = fresh_int("v_m12")
     fe = tok_frontend()
-    st = ctx.make_context([mk_src(da, 0, 1), mk_m1(db, vm, vm), mk_t1()], storage=[fe])
+    st = ctx.make_context([mk_src(da, 0, 1, obj), mk_m1(db, vm, vm, obj), mk_t1(obj)], storage=[fe])
     st.make(RUN, "m1", processor="single_thread")
     opts = dict(fuzzy_for=("m1",)) if kind == "type" else dict(fuzzy_for_options=("b",))
-    st2 = ctx.make_context([mk_src(da2, 0, 1), mk_m1(db2, vm2, vm2), mk_t1()], storage=[fe], **opts)
+    st2 = ctx.make_context([mk_src(da2, 0, 1, obj), mk_m1(db2, vm2, vm2, obj), mk_t1(obj)], storage=[fe], **opts)
     n_before = len(fe.backends[0].store)
     stored = st2.is_stored(RUN, "m1")
     if kind == "type":
@@ -346,7 +360,7 @@ def sym_fuzzy(kind):
 def nat_fuzzy(params, model):
     inj = _setup_tok_only()
     try:
-        label = core.concrete_run(lambda: sym_fuzzy(**params), model)
+        label = core.concrete_run(lambda: sym_fuzzy(**params, obj=False), model)
     finally:
         inj.restore()
     return {"ok": label is None, "detail": label or "holds", "label": label}
@@ -369,6 +383,7 @@ def _setup_tok_only():
 
 def sym_order():
     """Option insertion order does not change the key."""
+    _BNAME[0] = "b"
     x = fresh_int("x"); y = fresh_int("y")
     st1 = ctx.make_context([mk_src(1, 2, 3), mk_m1(4, 5, 5), mk_t1()], storage=[tok_frontend()])
     st2 = ctx.make_context([mk_src(1, 2, 3), mk_m1(4, 5, 5), mk_t1()], storage=[tok_frontend()])
@@ -536,6 +551,10 @@ def _grid(tier):
     for a, b in itertools.product(base[:6], repeat=2):
         if a != b:
             g.append(dict(ops=["make_t1", a, b]))
+    # an option named like the data type it configures (legal; the context hash merges both name spaces)
+    for h in (["set_b"], ["make_t1", "set_b"], ["get_m1", "set_b", "get_m1"], ["set_b", "get_t1_ctx2"],
+              ["make_t1", "reg_m1_default"], ["make_t1", "set_b", "reg_m1_version"]):
+        g.append(dict(ops=h, bname="m1"))
     if tier != "quick":
         for a, b in itertools.product(base, repeat=2):
             g.append(dict(ops=["get_m1", a, "make_t1", b]))
